@@ -1462,6 +1462,7 @@ func (f *Frame) enterLoop(li *loopInfo) {
 		// structural invariant of the compiler-generated range counter: every incoming value is the constant -1 or
 		// the counter plus one, so it never drops below -1 (by induction over the iterations; nothing to discharge)
 		if rangeCounter(phi) {
+			tr.note("range counters (compiler-generated phi [-1, k+1]) are >= -1 by construction; not discharged by the solver")
 			f.assume("(>= " + f.vals[phi].T + " (- 1))")
 		}
 	}
